@@ -178,6 +178,17 @@ pub fn header_edits(h: &Header) -> Vec<DiskOp> {
             v.push(DiskOp::HeaderSet { off: 4, value: ver });
         }
     }
+    // bit rot: every single-bit flip of the magic and of the version word, and the version with
+    // only its upper half changed
+    for bit in 0..32 {
+        v.push(DiskOp::HeaderSet { off: 0, value: h.magic ^ (1 << bit) });
+        v.push(DiskOp::HeaderSet { off: 4, value: h.version ^ (1 << bit) });
+    }
+    for ver in [h.version.wrapping_add(0x1_0000), h.version | 0xFFFF_0000, h.version.wrapping_add(0x100), h.version.rotate_left(16)] {
+        if ver != h.version {
+            v.push(DiskOp::HeaderSet { off: 4, value: ver });
+        }
+    }
     // the four counts
     for (off, n) in [(8usize, h.num_classes), (12, h.num_members), (16, h.num_members_by_params), (20, h.string_bytes)] {
         for val in [0u32, n.wrapping_sub(1), n.wrapping_add(1), n.wrapping_add(2), n.wrapping_add(1 << 16), 1 << 24, 1 << 31, u32::MAX - 1, u32::MAX] {
@@ -400,7 +411,7 @@ pub fn main(env: &Env) -> i32 {
     let corpus: Vec<(String, Vec<u8>)> = gen::corpus(false).into_iter().filter(|(_, b)| b.len() < if env.thorough { 200_000 } else { 6_000 }).collect();
     rep.rule = format!(
         "per file ({} seeded-generated mappings with 0..{} classes x 0..{} members + {} corpus files, written by the real writer): EVERY strict prefix length 0..len-1 (crash points), \
-         EVERY single header edit (magic swapped + 5 foreign magics; 7 other versions; each of the 4 counts set to 0, n-1, n+1, n+2, n+2^16, 2^24, 2^31, 2^32-2, 2^32-1), plus {} seeded edit+crash combinations. \
+         EVERY single header edit (magic swapped + 5 foreign magics; 7 other versions; every single-bit flip of the magic and version words; versions differing only in the upper half / second byte; each of the 4 counts set to 0, n-1, n+1, n+2, n+2^16, 2^24, 2^31, 2^32-2, 2^32-1), plus {} seeded edit+crash combinations. \
          Exhaustive per file over crash points and single edits. distinct_nontrivial = crash points at or beyond the header (offset >= 24) + header edits + combinations, per distinct file.",
         n_gen, maxc, maxm, corpus.len(), combos
     );
